@@ -781,6 +781,91 @@ def check(facts, rep, tier, cfg):
                     rep.ok("C01.R16", "new-flow-starts-forwarder", where, "unknown flow id -> insert + spawn on every path")
         rep.floor("C01.R16", "routing-table lookups for received datagrams", k16, 1)
 
+    # ---- R18 receive buffers hold the largest datagram either address family can carry
+    rep.rule("C01.R18", "UDP receive buffers are at least 65535 octets (the constant that sizes them): a smaller buffer truncates the largest "
+                        "IPv6 datagrams (up to 65527 octets of payload) on their way to the target and back")
+    cst = crate.consts.get("rusty_penguin_lib::config::MAX_UDP_PACKET_SIZE") if hasattr(crate, "consts") else None
+    if cst is None:
+        rep.bad("C01.R18", "udp-buffer-size", "", "config::MAX_UDP_PACKET_SIZE not found (anchor missing)")
+    elif isinstance(cst.get("v"), int) and cst["v"] >= 65535:
+        rep.ok("C01.R18", "udp-buffer-size", "penguin/src/config.rs", "MAX_UDP_PACKET_SIZE = %d" % cst["v"], nontrivial=False)
+    else:
+        rep.bad("C01.R18", "udp-buffer-size", "penguin/src/config.rs",
+                "MAX_UDP_PACKET_SIZE = %s is smaller than the largest UDP datagram (65535): datagrams above it are cut to the buffer size" % cst.get("v"))
+    # ---- R19 every configured remote gets its listener
+    if has_client:
+        rep.rule("C01.R19", "every configured remote is served: in the loop over the configured remotes the spawn of its handler cannot be skipped "
+                            "(no filter / dedup / `continue` between taking the next remote and spawning handle_remote)")
+        k19 = 0
+        for b in crate.bodies:
+            if "/src/client/" not in b.file or "::tests::" in b.path:
+                continue
+            hs = [bi for bi, t in b.calls() if callee(t) and callee(t)["name"] == "handle_remote"]
+            sp = [bi for bi, t in b.calls() if callee(t) and callee(t)["name"] in ("spawn", "spawn_local", "spawn_on") and "JoinSet" in callee(t)["path"]]
+            nx = [bi for bi, t in b.calls() if callee(t) and callee(t)["name"] == "next" and "Remote" in callee(t)["path"]]
+            if not (hs and sp and nx):
+                continue
+            S = [x for x in sp if any(x in b.reachable_from(h) for h in hs)]
+            if not S:
+                continue
+            S = S[0]
+            k19 += 1
+            rep.analysed(b)
+            tr19 = Tracer(facts, b)
+            heads = b.loop_headers_containing(S)
+            w19 = "%s (%s)" % (loc_str(b.term(S)["loc"]), b.path)
+            bad19 = None
+            for gb in range(len(b.blocks)):
+                if b.term(gb)["k"] != "SwitchInt" or not any(gb in b.reachable_from(n_, cut={S} | heads) for n_ in nx) or S not in b.reachable_from(gb, cut=heads):
+                    continue
+                g = guard_at(facts, b, tr19, gb)
+                for succ in set(b.succ[gb]):
+                    if succ == S or S in b.reachable_from(succ, cut=heads):
+                        continue
+                    reach = b.reachable_from(succ, cut={S})
+                    if not (heads & reach) and succ not in heads:
+                        continue
+                    vals = [v for s2, v in (g.edges if g else []) if s2 == succ]
+                    if g is not None and g.kind == "discr" and all(v in ("None", None) for v in vals) and \
+                            any(x.kind == "call" and x[6] == "next" for x in walk(g.pred)):
+                        continue
+                    bad19 = gb
+            if bad19 is not None:
+                rep.bad("C01.R19", "every-remote-spawned", "%s (%s)" % (loc_str(b.term(bad19)["loc"]), b.path),
+                        "a configured remote can be skipped (the loop goes on to the next one without spawning its handler): connections / "
+                        "datagrams sent to that entry point are never tunnelled")
+            else:
+                rep.ok("C01.R19", "every-remote-spawned", w19, "the spawn is passed for every remote taken from the list")
+        rep.floor("C01.R19", "loops spawning the handlers of the configured remotes", k19, 1)
+    # ---- R20 the forwarders do not slice the peer-supplied target by position
+    if has_server:
+        rep.rule("C01.R20", "the server's forwarders do not index or range-slice the target host they are given (peer-controlled bytes of any "
+                            "length, possibly empty or one octet): a panicking forwarder takes every stream of the connection down with it")
+        k20 = 0
+        bad20 = 0
+        for b in crate.bodies:
+            if "/src/server/forwarder.rs" not in b.file or "::tests::" in b.path:
+                continue
+            tr20 = None
+            for bi, t in b.calls():
+                c = callee(t)
+                if not c:
+                    continue
+                k20 += 1
+                if c["name"] in ("index", "index_mut", "split_at", "split_at_mut", "split_off", "remove", "swap_remove") and \
+                        any(k in c["path"] for k in ("<str as", "<[u8] as", "Range", "String", "Vec<u8>", "Bytes")):
+                    tr20 = tr20 or Tracer(facts, b)
+                    recv = tr20.operand(t["args"][0])
+                    if any(x.kind == "field" and x[2] in ("dest_host", "target_host") for x in walk(recv)) or \
+                            any(x.kind == "call" and x[6] in ("from_utf8", "from_utf8_unchecked") for x in walk(recv)):
+                        bad20 += 1
+                        rep.bad("C01.R20", "no-positional-slicing/%s" % b.path.split("::{")[0], "%s (%s)" % (loc_str(t["loc"]), b.path),
+                                "`%s` on the peer-supplied target host: for some hosts (empty, a single `[`, a multi-byte boundary) this panics, "
+                                "and a panicking forwarder aborts the whole connection with all its other streams (use get(..) / strip_prefix)" % c["name"])
+        if not bad20:
+            rep.ok("C01.R20", "no-positional-slicing", "", "%d calls inspected in the forwarders, none slices the target host by position" % k20, nontrivial=False)
+        rep.floor("C01.R20", "calls inspected in the forwarders", k20, 20)
+
     # ---- R10 a per-flow forwarder that has exited is forgotten, so the next datagram of that flow starts a new one
     if has_server:
         rep.rule("C01.R10", "server: when the hand-off to a flow's forwarder fails with Closed (forwarder pruned), the flow's entry is removed "
